@@ -37,14 +37,14 @@ theorem C02_no_wrong_restore (hR : Function.Injective ruleSer) (hP : Function.In
 /-- The property over all histories with a cache. -/
 theorem C02_main (hR : Function.Injective ruleSer) (hP : Function.Injective pathSer)
     (history : List (HOpC K A F N C S H)) (r : Repo K A F N C) (sel : K → Bool) (hwf : WFList sel [] r.targets) :
-    let s := runHistC generatedFacts (mvCoded generatedFacts pathSer) exec ruleSer pathSer history (fun _ => none, fun _ => none)
+    let s := runHistC generatedFacts (mvCoded generatedFacts pathSer) rsCoded exec ruleSer pathSer history (fun _ => none, fun _ => none)
     ∀ k ∈ selKeys sel r.targets, ∃ c st,
-      (buildC generatedFacts (mvCoded generatedFacts pathSer) exec ruleSer pathSer r sel s.1 s.2).1 k = some (c, st) ∧
+      (buildC generatedFacts (mvCoded generatedFacts pathSer) rsCoded exec ruleSer pathSer r sel s.1 s.2).1 k = some (c, st) ∧
       (clean exec r sel).lookup k = some c := by
   intro s
-  obtain ⟨hi, hci⟩ := runHistC_inv generatedFacts (mvCoded generatedFacts pathSer) exec ruleSer pathSer (mvCoded_ok _ _) hP history (fun _ => none, fun _ => none)
+  obtain ⟨hi, hci⟩ := runHistC_inv generatedFacts (mvCoded generatedFacts pathSer) rsCoded exec ruleSer pathSer (mvCoded_ok _ _) (fun _ _ => rfl) hP history (fun _ => none, fun _ => none)
     (inv_empty exec ruleSer pathSer) (invC_empty exec ruleSer pathSer)
-  have h := buildListC_spec generatedFacts (mvCoded generatedFacts pathSer) exec ruleSer pathSer (mvCoded_ok _ _) facts_cmp hR hP r sel r.targets [] s.1 s.2 [] rfl hi hci
+  have h := buildListC_spec generatedFacts (mvCoded generatedFacts pathSer) rsCoded exec ruleSer pathSer (mvCoded_ok _ _) (fun _ _ => rfl) facts_cmp hR hP r sel r.targets [] s.1 s.2 [] rfl hi hci
     (by intro k hk; simp at hk) hwf
   intro k hk
   exact h.2.2.2 k (by simpa using hk)
